@@ -157,9 +157,10 @@ struct BytesWorld : World {
         }
         std::string want;
         static const char *lo = "0123456789abcdef", *up = "0123456789ABCDEF";
-        for (uint8_t b : in) { want += (upper ? up : lo)[b >> 4]; want += (upper ? up : lo)[b & 15]; }
+        const char *tab = upper ? up : lo;
+        for (size_t i = 0; i < in.size(); ++i) { unsigned v = in[i]; want.push_back(tab[(v >> 4) & 15u]); want.push_back(tab[v & 15u]); }
         if (r != (int)(2 * n) || memcmp(out.p, want.c_str(), 2 * n + 1) != 0)
-            run.violation("C20", "hex_encode", "ascon_bytes_to_hex", fmt("n=%zu returned %d", n, r));
+            run.violation("C20", "hex_encode", "ascon_bytes_to_hex", fmt("n=%zu returned %d got=%s want=%s", n, r, hex(out.p, 2 * n + 1, 12).c_str(), hex((const uint8_t *)want.c_str(), 2 * n + 1, 12).c_str()));
         // round trip through the decoder
         GuardBuf back(n, 5, false);
         int d = ascon_bytes_from_hex(back.p, n, (const char *)out.p, 2 * n);
@@ -237,6 +238,14 @@ struct BytesWorld : World {
             run.violation("C20", "cpp_decode_returns_exactly_decoded_bytes", site,
                           fmt("kind=%d textlen=%zu: helper returned %zu bytes, decoded value has %zu bytes", kind, text.size(), got.size(), expect.size()));
         // bytes_from_data and (STL) bytes_to_hex on the decoded value
+        if (expect.empty()) {
+            // an empty input, given as a null or as a valid pointer, is a valid call
+            static const unsigned char one = 0;
+            ascon::byte_array d = ascon::bytes_from_data((op.u(3) & 2) ? nullptr : &one, 0);
+            const ascon::byte_array &cd = d;
+            if (cd.size() != 0) run.violation("C20", "bytes_from_data", "bytes_from_data", "non-empty result for len=0");
+            run.probe("bytes_from_data.empty");
+        }
         if (!expect.empty()) {
             ascon::byte_array d = ascon::bytes_from_data(expect.data(), expect.size());
             const ascon::byte_array &cd = d;
